@@ -11,7 +11,10 @@ import (
 	"strings"
 
 	v2 "mosn.io/mosn/pkg/config/v2"
+	"mosn.io/mosn/pkg/log"
 	"mosn.io/mosn/pkg/router"
+	"mosn.io/mosn/pkg/types"
+	"verif/harness/c05"
 	"verif/harness/hx"
 )
 
@@ -114,6 +117,86 @@ func runVec(c *hx.Ctx, v vec, reps int) {
 // Run enumerates every weight vector with <= maxN clusters and weights <= maxW (every draw, `reps` calls per
 // draw so that all map iteration orders appear), then random larger vectors.
 func Run(c *hx.Ctx) {
+	runWC(c)
+	runWRR(c)
+}
+
+// ---- weighted round robin (EDF scheduler): pick sequences of the real balancer over all-healthy hosts
+
+type lbCtx struct {
+	types.LoadBalancerContext
+}
+
+func (l *lbCtx) DownstreamContext() context.Context { return context.Background() }
+
+// wrrSeq builds the real LB_WEIGHTED_ROUNDROBIN balancer for the weight vector (through the real cluster), serves
+// `picks` lookups and emits one line: `wrr <weights> <rr start> <warm-up picks> => <served hosts, one digit each>`.
+func wrrSeq(c *hx.Ctx, e *c05.Env, ws []int, picks int) {
+	e.Reset()
+	hs := make([]c05.HostSpec, len(ws))
+	wtok := make([]string, len(ws))
+	for i, w := range ws {
+		hs[i] = c05.HostSpec{ID: i, W: uint32(w)}
+		wtok[i] = fmt.Sprint(w)
+	}
+	op := e.Replace(hs) // S<hosts>|<rr0>|<pre>
+	f := strings.Split(op, "|")
+	lb := e.Cl.Snapshot().LoadBalancer()
+	lc := &lbCtx{}
+	out := make([]byte, 0, picks)
+	for k := 0; k < picks; k++ {
+		h := lb.ChooseHost(lc)
+		i := -1
+		if h != nil {
+			i = e.IndexOf(h)
+		}
+		if i < 0 || i > 9 {
+			out = append(out, '?')
+		} else {
+			out = append(out, byte('0'+i))
+		}
+	}
+	c.Emit("C06", fmt.Sprintf("wrr %s %s %s", strings.Join(wtok, ","), f[1], f[2]), string(out))
+	c.Count(fmt.Sprintf("wrr.hosts=%d", len(ws)))
+	c.Count(fmt.Sprintf("wrr.picks=%d", picks))
+}
+
+func runWRR(c *hx.Ctx) {
+	log.DefaultLogger.SetLogLevel(log.FATAL)
+	r := c.Rng.Fork()
+	e := c05.GetEnv("wrr", types.WeightedRoundRobin, 2, r)
+	// boundary vectors: ties everywhere (1 vs k), one dominant weight, co-prime neighbours, out-of-range weights
+	fixed := [][]int{{1, 2}, {1, 3}, {1, 10}, {3, 7}, {127, 128}, {1, 128}, {1, 1, 128}, {2, 3, 5, 7}, {1, 2, 3, 128},
+		{0, 1, 200}, {5, 5, 5}, {64, 96, 128, 32}, {1, 2, 3, 4, 5, 6, 7, 8}, {128, 127, 126, 125, 124, 123, 122, 121}}
+	for _, ws := range fixed {
+		wrrSeq(c, e, ws, c.N(300, 20000))
+	}
+	// seeded vectors from the whole supported range 1..128 (and a few outside)
+	for i := 0; i < c.N(20, 40); i++ {
+		n := 2 + r.Intn(7)
+		ws := make([]int, n)
+		for j := range ws {
+			switch r.Intn(10) {
+			case 0:
+				ws[j] = r.Pick([]int{0, 129, 1000})
+			case 1, 2:
+				ws[j] = r.Pick([]int{1, 2, 3, 128})
+			default:
+				ws[j] = 1 + r.Intn(128)
+			}
+		}
+		wrrSeq(c, e, ws, c.N(300, 5000))
+	}
+	if c.Thorough() {
+		// one long run on one balancer: float64 deadlines against exact rationals over 10^6 picks
+		long := [][]int{{1, 3, 7, 10, 128}, {127, 128}, {3, 5, 7, 11, 13, 17, 19, 23}, {1, 2, 3, 128}}
+		wrrSeq(c, e, long[int(c.Seed)%len(long)], 1000000)
+	}
+}
+
+// ---- weighted clusters of a route rule
+
+func runWC(c *hx.Ctx) {
 	maxN, maxW, reps := 3, 4, 48
 	if c.Thorough() {
 		maxN, maxW, reps = 4, 6, 96
